@@ -195,7 +195,7 @@ PROPS = {
                      "Grol.Memory.C09.mapAppend_sound", "Grol.Memory.C09.range_sound", "Grol.Memory.mulLen_spec",
                      "Grol.Depth.C09.depth_invariant", "Grol.Depth.C09.reset_restores", "Grol.Depth.C09.chain_ok_iff", "Grol.Depth.run_ok_balanced",
                      "Grol.Generated.LoopFacts.C09.loops_classified", "Grol.Generated.LoopFacts.C09.polling_loops_poll",
-                     "Grol.Generated.LoopFacts.C09.bare_for_loops",
+                     "Grol.Generated.LoopFacts.C09.bare_for_loops", "Grol.Generated.LoopFacts.C09.guarded_loops_guards",
                      "Grol.Memory.C09.strConcat_sound", "Grol.Depth.C09.chainOk_spec", "Grol.Depth.C09.unbounded_recursion_guarded"],
         "suites": ["memory", "bounded"],
         "rule": "memory suite, 10^5 cases (quick). g: object.SizeOk(n) with the process memory limit set to one of {1, 2^20, 2^26, 2^30, 2^40, 2^62, max}, "
@@ -213,7 +213,10 @@ PROPS = {
                 "argument, mutual, through a closure, through `self`, non-tail), terminating recursion just below/above each limit (need measured in process; default "
                 "depth: extrapolated), nested closures, huge operands (\"ab\"*N, [1]*N, 0:N, a+a, four string doublings) on both sides of the budget, growth in a loop "
                 "(array/string doubling, s*2, map merges, append, nesting), source text nested 10^4..4*10^4 deep (parens, brackets, `- `, `!`, if-blocks, calls, func "
-                "literals, a left-deep + chain; blocks 1000..4000; thorough: 10^6), values with shared structure (a=[a,a] 8..15 times, then a==a / println(a)), sleep(10). Measured per run: exit status, result kind, wall time inside "
+                "literals, a left-deep + chain; blocks 1000..4000; thorough: 10^6), values with shared structure (a=[a,a] 8..15 times, then a==a / println(a)), huge count x EMPTY operand under a 100 ms / 1 s deadline "
+                "([]*N, x[3:3]*N, (0:0)*N, (k:k)*N, \"\"*N, \"abc\"[3:3]*N, and counted loops of N merges of {} / []; N in {2^40, 2^62, 2^62+1, 2^63-1}; these "
+                "children are killed 8 s after the deadline, at most 2 killed runs are repeated), counts whose product with the operand length wraps "
+                "([1,2,3,4]*N, [1,2]*N, \"abcd\"*N), sleep(10). Measured per run: exit status, result kind, wall time inside "
                 "EvalStringWithOption, peak RSS (VmHWM). Statement (lean/Grol/BoundedSuite.lean): exit 0, wall <= deadline + 3000 ms, RSS <= 4 x limit, result kind allowed "
                 "for the family (loops: deadline; unbounded recursion: depth, or deadline when one is set; huge operands: refused or within the budget; never a stray Go panic). "
                 "The driver predicts the result kind from Grol.Memory / Grol.Depth where it can (compared: agree) — wall time and RSS are never predicted.",
@@ -225,7 +228,9 @@ PROPS = {
             "GOMEMLIMIT accounting (what FreeMemory() returns) is accurate",
             "generated on every run (lean/Grol/Generated/LoopFacts.lean, harness/cmd/harness/extract_loops.go, syntactic): every `for`/`range` statement of packages eval and "
             "object and of repl.EvalStringWithOption/EvalOne/evalOne/logParserErrors with its header text and whether its body calls a context-polling evaluator entry point; "
-            "the CLASSIFICATION of each loop (polls / bounded by container / guarded allocation / constant / frames) is by hand, with a one-line reason each",
+            "the CLASSIFICATION of each loop (polls / bounded by container / guarded allocation / constant / frames) is by hand, with a one-line reason each; "
+            "for the two guarded-allocation loops the extractor also records what dominates the loop in its statement list (early-return conditions, MulLen / MustBeOk / "
+            "MakeObjectSlice calls, in order) and C09.guarded_loops_guards pins that text",
             "MEASURED, not proved (bounded suite): wall-clock time after the deadline, peak RSS, survival of the process (Go stack growth, GC behaviour, scheduler latency); "
             "thresholds are the named constants slackMs, rssFactor, memLimitKB of lean/Grol/BoundedSuite.lean; timing depends on the machine and its load",
             "NOT covered: loops inside extensions/, ast/ (printer), parser/, lexer/ and the Go standard library; the other MustBeOk call sites in extensions (str functions) and "
